@@ -277,9 +277,9 @@ func (p *Provider) reserveIP(reserveIP net.IP, mac, sessionID, poolName string, 
 			return nil
 		}
 		if time.Now().After(existing.ExpireTime) {
-			if existing.PoolName != "" {
-				allocator.GetGlobalRegistry().Release(existing.PoolName, existing.IP)
-			}
+			// The caller has already allocated or reserved reserveIP for
+			// sessionID in the registry, so the registry lease now belongs
+			// to the new subscriber: only the stale table entry is dropped.
 			delete(p.leasesByIP, ipStr)
 			delete(p.leases, existing.MAC)
 		} else {
